@@ -23,7 +23,7 @@ MAX_CLASSES = 400
 
 class Obligation:
     def __init__(self, prop, name, body, params, tier, gating, generic, max_paths, rlimit, wall_s, bounds,
-                 validate, min_paths, goal_rlimit, expect_fail):
+                 validate, min_paths, goal_rlimit, expect_fail, env_stub=False):
         self.prop = prop
         self.name = name
         self.body = body
@@ -39,6 +39,7 @@ class Obligation:
         self.validate = validate
         self.min_paths = min_paths
         self.expect_fail = expect_fail
+        self.env_stub = env_stub
         ptxt = ",".join(f"{k}={_fmt(v)}" for k, v in params.items())
         self.id = f"{prop}/{name}" + (f"[{ptxt}]" if ptxt else "")
 
@@ -52,7 +53,7 @@ def _fmt(v):
 
 
 def ob(prop, params=None, tier="quick", gating=True, generic=False, max_paths=6000, rlimit=3_000_000,
-       wall_s=900.0, bounds="", validate=True, min_paths=1, goal_rlimit=30_000_000, name=None, expect_fail=False):
+       wall_s=900.0, bounds="", validate=True, min_paths=1, goal_rlimit=30_000_000, name=None, expect_fail=False, env_stub=False):
     """decorator: register body(E, **p) once per parameter dict in `params`"""
     def deco(fn):
         plist = params if params is not None else [{}]
@@ -63,7 +64,7 @@ def ob(prop, params=None, tier="quick", gating=True, generic=False, max_paths=60
             REGISTRY.setdefault(prop, []).append(
                 Obligation(prop, name or fn.__name__, fn, p, t, gating, generic, mpaths, rlimit, wall_s,
                            bounds or (fn.__doc__ or "").strip().split("\n")[0], validate, min_paths, goal_rlimit,
-                           expect_fail))
+                           expect_fail, env_stub))
         return fn
     return deco
 
@@ -229,10 +230,24 @@ def run_obligation(o: Obligation, seed=0):
     if out_fails:
         if any(cr["reproduced"] for j in out_fails for cr in j["classes"].values()):
             status = "violated"
-        if any(not cr["reproduced"] for j in out_fails for cr in j["classes"].values()):
+        unrep = [j for j in out_fails if any(not cr["reproduced"] for cr in j["classes"].values())]
+        if unrep and o.env_stub:
+            # environment stubs (eigen-solver, ...) range over every output the contract allows; the real solver
+            # need not exhibit each of them.  Classes that do not replay are listed, not reported; a goal none of
+            # whose classes replays leaves the obligation inconclusive.
+            for j in unrep:
+                j["contract_level_only"] = [c for c, cr in j["classes"].items() if not cr["reproduced"]]
+                j["classes"] = {c: cr for c, cr in j["classes"].items() if cr["reproduced"]}
+            dead = [j for j in out_fails if not j["classes"]]
+            out_fails = [j for j in out_fails if j["classes"]]
+            if dead:
+                unknowns.append("contract-level counterexample not exhibited by the real solver: " + dead[0]["label"])
+        elif unrep:
             reasons.append("a solver counterexample did not reproduce on the real code (encoding or stand-in wrong?)")
             if status != "violated":
                 status = "error"
+        if not out_fails:
+            status = "proved"
     if status == "proved":
         if budget:
             status, reasons = "inconclusive", [budget]
